@@ -81,14 +81,18 @@ theorem argsEq_iff (a b : CArgs) :
     argsEq a b = true ↔ a.pos = b.pos ∧ ∀ k, lookup k a.kw = lookup k b.kw := by
   simp [argsEq, kwEq_iff]
 
+theorem boundEq_iff (a b : Bound) :
+    boundEq a b = true ↔ a.slots = b.slots ∧ a.extraPos = b.extraPos ∧ ∀ k, lookup k a.extraKw = lookup k b.extraKw := by
+  simp [boundEq, kwEq_iff, and_assoc]
+
 theorem effArgsEq_refl (e : Eff) : effArgsEq e e = true := by
   cases e with
-  | bound l => simp [effArgsEq]
+  | bound l => simp [effArgsEq, boundEq_iff]
   | literal a => simp [effArgsEq, argsEq_iff]
 
 theorem effArgsEq_symm {e f : Eff} (h : effArgsEq e f = true) : effArgsEq f e = true := by
   cases e <;> cases f <;> simp only [effArgsEq] at h ⊢
-  · rw [beq_iff_eq] at h ⊢; exact h.symm
+  · rw [boundEq_iff] at h ⊢; exact ⟨h.1.symm, h.2.1.symm, fun k => (h.2.2 k).symm⟩
   · cases h
   · cases h
   · rw [argsEq_iff] at h ⊢; exact ⟨h.1.symm, fun k => (h.2 k).symm⟩
@@ -97,32 +101,33 @@ theorem effArgsEq_trans {e f g : Eff} (h₁ : effArgsEq e f = true) (h₂ : effA
     effArgsEq e g = true := by
   cases e <;> cases f <;> cases g <;> simp only [effArgsEq] at h₁ h₂ ⊢
   all_goals first
-    | (rw [beq_iff_eq] at h₁ h₂ ⊢; exact h₁.trans h₂)
+    | (rw [boundEq_iff] at h₁ h₂ ⊢
+       exact ⟨h₁.1.trans h₂.1, h₁.2.1.trans h₂.2.1, fun k => (h₁.2.2 k).trans (h₂.2.2 k)⟩)
     | (rw [argsEq_iff] at h₁ h₂ ⊢; exact ⟨h₁.1.trans h₂.1, fun k => (h₁.2 k).trans (h₂.2 k)⟩)
     | cases h₁
     | cases h₂
 
-theorem callEq_iff (sig : Nat → List Param) (c d : Occ) :
+theorem callEq_iff (sig : Nat → Sig) (c d : Occ) :
     callEq sig c d = true ↔
       c.cls = d.cls ∧ effArgsEq (effArgs (sig c.id) c.args) (effArgs (sig d.id) d.args) = true := by
   simp [callEq]
 
-theorem callEq_refl (sig : Nat → List Param) (c : Occ) : callEq sig c c = true := by
+theorem callEq_refl (sig : Nat → Sig) (c : Occ) : callEq sig c c = true := by
   rw [callEq_iff]; exact ⟨rfl, effArgsEq_refl _⟩
 
-theorem callEq_symm (sig : Nat → List Param) {c d : Occ} (h : callEq sig c d = true) : callEq sig d c = true := by
+theorem callEq_symm (sig : Nat → Sig) {c d : Occ} (h : callEq sig c d = true) : callEq sig d c = true := by
   rw [callEq_iff] at *
   exact ⟨h.1.symm, effArgsEq_symm h.2⟩
 
-theorem callEq_trans (sig : Nat → List Param) {c d e : Occ} (h₁ : callEq sig c d = true)
+theorem callEq_trans (sig : Nat → Sig) {c d e : Occ} (h₁ : callEq sig c d = true)
     (h₂ : callEq sig d e = true) : callEq sig c e = true := by
   rw [callEq_iff] at *
   exact ⟨h₁.1.trans h₂.1, effArgsEq_trans h₁.2 h₂.2⟩
 
 /-- for calls Python can bind, `Call.__eq__` is: equal tasks and equal bound arguments -/
-theorem callEq_wellCalled (sig : Nat → List Param) (c d : Occ)
+theorem callEq_wellCalled (sig : Nat → Sig) (c d : Occ)
     (hc : wellCalled (sig c.id) c.args = true) (hd : wellCalled (sig d.id) d.args = true) :
-    callEq sig c d = (c.cls == d.cls && bind (sig c.id) c.args == bind (sig d.id) d.args) := by
+    callEq sig c d = (c.cls == d.cls && boundEq (bindS (sig c.id) c.args) (bindS (sig d.id) d.args)) := by
   simp [callEq, effArgs, hc, hd, effArgsEq]
 
 /-! ### dedupe, for an arbitrary comparison `eqv` -/
